@@ -144,6 +144,12 @@ func (n *LocalNode) FindSuccessor(key uint64) (chord.VNode, error) {
 	}
 	// find next in ring according to finger table
 	closest := n.closestPrecedingNode(key)
+	if closest.ID() == n.ID() {
+		// no finger precedes the key (finger table not yet repaired after a
+		// join or a successor change). asking ourselves again would recurse
+		// forever, walk the ring via the successor instead
+		return succ.FindSuccessor(key)
+	}
 	// contact possibly remote node
 	return closest.FindSuccessor(key)
 }
